@@ -106,6 +106,56 @@ def _helper_summary(repo, qual, skip):
 
 
 _VALIDATORS = {}
+_MODVALS = {}
+
+
+def _module_value(repo, qual):
+    """Term of a module-level name the checker does not know, bound once to a constructor-like expression
+    (a compiled regex, a table, a tuple of names ...): hoisting an expression to a module constant is not
+    a change.  None if the name is known, is a def / class / import, or its value is not a plain expression."""
+    key = (repo.root, qual)
+    if key in _MODVALS:
+        return _MODVALS[key]
+    _MODVALS[key] = None
+    if '.' not in qual:
+        return None
+    mod, name = qual.rsplit('.', 1)
+    m = repo.modules.get(mod)
+    if m is None or name not in m.assigns or name in m.defs or name in _known_names() or name.startswith('__'):
+        return None
+    # bound exactly once at module level
+    n_bind = 0
+    for node in ast.walk(m.tree):
+        if isinstance(node, (ast.Assign, ast.AnnAssign, ast.AugAssign)):
+            tgts = node.targets if isinstance(node, ast.Assign) else [node.target]
+            for t in tgts:
+                for x in ast.walk(t):
+                    if isinstance(x, ast.Name) and x.id == name:
+                        n_bind += 1
+    if n_bind != 1:
+        return None
+    expr = m.assigns[name]
+    if any(isinstance(x, (ast.Lambda, ast.Yield, ast.YieldFrom, ast.Await, ast.NamedExpr, ast.GeneratorExp)) for x in ast.walk(expr)):
+        return None
+    fn = ast.FunctionDef(name='_module_value_', args=ast.arguments(posonlyargs=[], args=[], kwonlyargs=[], kw_defaults=[], defaults=[]),
+                         body=[ast.Return(expr)], decorator_list=[], type_params=[])
+    ast.fix_missing_locations(ast.copy_location(fn, expr))
+    for x in ast.walk(fn):
+        if not hasattr(x, 'lineno'):
+            ast.copy_location(x, expr)
+    try:
+        fa = FuncAnalysis(repo, FuncInfo(mod + '.<module-value:' + name + '>', fn, m), versioned=False)
+    except Exception:
+        return None
+    rets = [e for e in fa.events if e.kind == 'return']
+    if len(rets) != 1 or fa.unrecognised:
+        return None
+    v = rets[0].value
+    if any(isinstance(x, tuple) and x and (x[0] in ('unk', 'mut', 'nth') or (x[0] == 'g' and isinstance(x[1], str) and x[1].startswith('$')))
+           for x in T.walk(v)):
+        return None
+    _MODVALS[key] = v
+    return v
 
 
 def _validation_summary(repo, qual, skip):
@@ -1312,7 +1362,12 @@ class FuncAnalysis:
             return ('unk', 'unbound:' + name, 0)
         if name in self.closure:
             return self.closure[name]
-        return self.repo.global_term(self.module, name)
+        t = self.repo.global_term(self.module, name)
+        if t[0] == 'g':
+            v = _module_value(self.repo, t[1])
+            if v is not None:
+                return v
+        return t
 
     def _e_Name(self, n):
         return self._load_name(n.id, n)
